@@ -50,6 +50,11 @@ def main():
     thorough = T == "thorough"
     fixtures = os.path.join(common.REPO, "tests", "coco_tests", "fixtures")
     calls = [{"kind": "convert", "src": "\n".join(l), "opts": o} for l, o in PROGRAMS]
+    # the same program through convert_file with an options file of one path and three contents (sizes per name)
+    cfsrc = "10 DIM A$,B$(2)\n20 A$=\"X\":B$(1)=A$:C$=A$"
+    for sizes in ({"A$": 10}, {"A$": 200}, {"A$": 200, "B$()": 40, "C$": 7}):
+        calls.append({"kind": "convert_file", "src": cfsrc, "opts": {"procname": "p"},
+                      "config": "string_configs:\n  strname_to_size:\n" + "".join("    %s: %d\n" % kv for kv in sizes.items())})
     calls += [{"kind": "decode", "tool": t, "args": a, "file": os.path.join(fixtures, f)} for t, a, f in DECODES if os.path.exists(os.path.join(fixtures, f))]
     # two generated files per compressed format (different pictures, encodings that refer to the line above / earlier bytes):
     # a decoder that keeps a buffer between calls shows it only on such pairs
@@ -62,7 +67,15 @@ def main():
             with open(path, "wb") as fh:
                 fh.write(f["data"])
             calls.append({"kind": "decode", "tool": f["tool"], "args": f["args"], "file": path})
-    kinds = ["convert" if c["kind"] == "convert" else c["tool"] for c in calls]
+    # pairs of uncompressed files of one layout that differ only in the palette, and (MGE) only in the palette kind with equal
+    # palette bytes: a decoder that keeps a colour table between calls shows it only on such pairs
+    for v in [x for x in imgfmt.variants_palette_sweep() if x[0].endswith(("pal0", "pal1"))]:
+        for f in imgfmt.generate(rep, wd, v, 1, common.seed()):
+            path = os.path.join(gdir, "%s.bin" % v[0])
+            with open(path, "wb") as fh:
+                fh.write(f["data"])
+            calls.append({"kind": "decode", "tool": f["tool"], "args": f["args"], "file": path})
+    kinds = [c["kind"] if c["kind"] != "decode" else c["tool"] for c in calls]
     n = len(calls)
     # (G) histories from the TLA+ History machine
     cfg = os.path.join(wd, "hist.cfg")
@@ -79,7 +92,7 @@ def main():
         hists = [h for h in hists if len(h) == 1] + gen.sample(rng, [h for h in hists if len(h) == 2], 120) + \
                 [[a, b, a] for a in range(0, n, 3) for b in range(1, n, 5)]
     # all ordered pairs of conversions, and of decodes by the same tool
-    conv = [k for k, c in enumerate(calls) if c["kind"] == "convert"]
+    conv = [k for k, c in enumerate(calls) if c["kind"] in ("convert", "convert_file")]
     have = {tuple(h) for h in hists}
     hists += [[a, b] for a in conv for b in conv if a != b and (a, b) not in have]
     have = {tuple(h) for h in hists}
